@@ -52,7 +52,7 @@ impl IVP for F {
             Rhs::Stiff => d[0] = -2000.0 * (y[0] - x.cos()),
             Rhs::Script => {
                 // call-indexed: the value depends only on the position inside the current trial
-                if n <= self.pre { d[0] = 1.0; return; }
+                if n <= self.pre { d[0] = std::env::var("SCRIPT_PRE").ok().and_then(|v| v.parse().ok()).unwrap_or(1.0); return; }
                 let k = self.in_trial.get();
                 let t = self.trial.get();
                 let mode = if t < self.script.len() { self.script[t] } else { b'A' };
